@@ -1,7 +1,168 @@
 import ConfModel.Driver.Common
+import ConfModel.Model.Convert
+import ConfModel.Model.Base64
+import ConfModel.Spec.Convert
 namespace ConfModel.Driver.C18
-open Lean ConfModel.Driver
+open Lean ConfModel.Driver ConfModel.Convert ConfModel.ConvertSpec
 
-def handle : Handler := fun op _inp _impl => bad ("C18: unknown op " ++ op)
+/-- the base64 instance the model is run with (connect's binary-header encoding) -/
+def b64 : B64 := { enc := ConfModel.Base64.encode, dec := ConfModel.Base64.decode }
+
+def parseHs (j : Json) : List Header :=
+  (arr j).map fun h => { name := (str (field h "n")).toList, values := (strList (field h "v")).map unhex }
+
+def parseMD (j : Json) : MD :=
+  (arr j).map fun h => ((str (field h "k")).toList, (strList (field h "v")).map unhex)
+
+abbrev Canon := List (String × List String)
+
+def canonMD (md : MD) : Canon :=
+  ((md.map fun kv => (String.ofList kv.1, kv.2.map hex)).toArray.qsort (fun a b => a.1 < b.1)).toList
+
+def hsAsMD (hs : List Header) : MD := hs.map fun h => (h.name, h.values)
+
+def canonJson (key : String) (c : Canon) : Json :=
+  Json.arr (c.map fun kv => Json.mkObj [(key, kv.1), ("v", toJson kv.2)]).toArray
+
+def parseErr (j : Json) : ProtoErr :=
+  { code := int (field j "code"),
+    message := if isNull (field j "msg") then none else some (str (field j "msg")),
+    details := (arr (field j "details")).map fun d => { url := (str (field d "url")).toList, value := unhex (str (field d "val")) } }
+
+def parseErr? (j : Json) : Option ProtoErr := if isNull j then none else some (parseErr j)
+
+def errJson : Option ProtoErr → Json
+  | none => Json.null
+  | some e => Json.mkObj [("code", toJson e.code), ("msg", match e.message with | none => Json.null | some m => m),
+      ("details", Json.arr (e.details.map fun d => Json.mkObj [("url", String.ofList d.url), ("val", hex d.value)]).toArray)]
+
+structure Mid where
+  code : Int
+  msg : String
+  types : List String
+deriving BEq
+
+def parseMid? (j : Json) : Option Mid :=
+  if isNull j then none else some { code := int (field j "code"), msg := str (field j "msg"), types := strList (field j "types") }
+
+def viaConnect (e : ProtoErr) : ProtoErr := connectToProto (protoToConnect e)
+def viaGrpc (e : ProtoErr) : Option ProtoErr := grpcToProto (protoToGrpc e)
+
+def panicked (impl : Json) : Bool := !(isNull (field impl "panic"))
+
+def handle : Handler := fun op inp impl =>
+  if panicked impl then { agree := false, holds := false, why := "panic: " ++ str (field impl "panic") } else
+  match op with
+  | "err" =>
+    let e := parseErr inp
+    let via := str (field inp "via")
+    let implOut := parseErr? (field impl "out")
+    let implMid := parseMid? (field impl "mid")
+    let mOut : Option ProtoErr := match via with
+      | "connect" => some (viaConnect e)
+      | "grpc" => viaGrpc e
+      | "cg" => viaGrpc (viaConnect e)
+      | _ => (viaGrpc e).map viaConnect
+    let mMid : Option Mid :=
+      if via == "connect" || via == "cg" then
+        let c := protoToConnect e
+        some { code := c.code, msg := c.message, types := c.details.map (fun d => String.ofList (typeName d.url)) }
+      else (protoToGrpc e).map fun s => { code := s.code, msg := s.message, types := s.details.map (fun d => String.ofList d.url) }
+    -- the property: code, message and every detail survive (default-prefixed type URLs where
+    -- the Connect form is involved; non-OK code where the gRPC form is involved)
+    let claimed := (via == "grpc" || DefaultPrefixed e) && (via == "connect" || e.code != 0)
+    let holds := !claimed || (match implOut with | some o => sameError o e | none => false)
+    { agree := implOut == mOut && implMid == mMid, holds := holds,
+      nontrivial := claimed && !e.details.isEmpty, model := errJson mOut, cls := via,
+      why := if holds then "" else "error not preserved via " ++ via }
+  | "anyerr" =>
+    let e := parseErr (field inp "err")
+    let kind := str (field inp "kind")
+    let text := str (field inp "text")
+    let implOut := parseErr? impl
+    let mOut := errorToProto (match kind with
+      | "nil" => none
+      | "plain" => some (.plain text)
+      | "connect" => some (.connect (protoToConnect e))
+      | _ => some (.wrapped (protoToConnect e)))
+    let holds := match kind with
+      | "nil" => implOut.isNone
+      | "plain" => (match implOut with | some o => o.code == codeUnknown && o.getMessage == text | none => false)
+      | _ => !DefaultPrefixed e || (match implOut with | some o => sameError o e | none => false)
+    { agree := implOut == mOut, holds := holds, nontrivial := kind != "nil", model := errJson mOut, cls := kind,
+      why := if holds then "" else "error not preserved by ConvertErrorToProtoError (" ++ kind ++ ")" }
+  | "h2md" =>
+    let hs := parseHs (field inp "hs")
+    let implMD := parseMD (field impl "md")
+    let m := headersToMD b64 hs
+    let holds := preserves lower (decIfBin b64) hs implMD
+    { agree := canonMD implMD == canonMD m, holds := holds,
+      nontrivial := hs.length > 1, model := canonJson "k" (canonMD m),
+      why := if holds then "" else "metadata does not hold every key with every value in order" }
+  | "outgoing" =>
+    let hs := parseHs (field inp "hs")
+    let implMD := parseMD (field impl "md")
+    let m := fromOutgoing (appendOutgoing b64 hs)
+    let holds := preservesValues lower (decIfBin b64) hs implMD
+    { agree := canonMD implMD == canonMD m, holds := holds,
+      nontrivial := hs.any (fun h => isBin (lower h.name) && !h.values.isEmpty), model := canonJson "k" (canonMD m),
+      why := if holds then "" else "outgoing metadata is not the given headers with -bin values decoded once" }
+  | "rt" =>
+    let hs := parseHs (field inp "hs")
+    let implHs := parseHs (field impl "hs")
+    let m := mdToHeaders b64 (headersToMD b64 hs)
+    -- every value decoded once and encoded once (identity on canonical -bin values)
+    let holds := preserves lower (fun k v => encIfBin b64 k (decIfBin b64 k v)) hs (hsAsMD implHs)
+    { agree := canonMD (hsAsMD implHs) == canonMD (hsAsMD m), holds := holds,
+      nontrivial := hs.any (fun h => isBin (lower h.name) && !h.values.isEmpty), model := canonJson "n" (canonMD (hsAsMD m)),
+      why := if holds then "" else "headers -> metadata -> headers lost or re-encoded a value" }
+  | "md2h" =>
+    let md := parseMD (field inp "md")
+    let first := parseHs (field impl "first")
+    let second := parseHs (field impl "second")
+    let after := parseMD (field impl "after")
+    let (m1, mdAfter) := mdToHeadersSt b64 md
+    let (m2, _) := mdToHeadersSt b64 mdAfter
+    let once := encodedOnce b64 md first
+    let same := canonMD (hsAsMD second) == canonMD (hsAsMD first)
+    let untouched := canonMD after == canonMD md
+    let holds := once && same && untouched
+    { agree := canonMD (hsAsMD first) == canonMD (hsAsMD m1) && canonMD (hsAsMD second) == canonMD (hsAsMD m2)
+        && canonMD after == canonMD mdAfter,
+      holds := holds, nontrivial := md.any (fun kv => isBin kv.1 && !kv.2.isEmpty),
+      model := canonJson "n" (canonMD (hsAsMD m1)),
+      why := if holds then "" else
+        if !once then "-bin values not encoded exactly once"
+        else if !same then "second conversion of the same metadata differs (encoded twice)"
+        else "conversion altered the caller's metadata" }
+  | "addh" =>
+    let hs := parseHs (field inp "hs")
+    let trailer := bool (field inp "trailer")
+    let implHs := parseHs (field impl "hs")
+    let m := convertToProtoHeader (if trailer then addTrailers hs else addHeaders hs)
+    let norm : Str → Str := if trailer then trailerNorm else canon
+    let holds := preservesValues norm (fun _ v => v) hs (hsAsMD implHs)
+    { agree := canonMD (hsAsMD implHs) == canonMD (hsAsMD m), holds := holds,
+      nontrivial := hs.length > 1, model := canonJson "n" (canonMD (hsAsMD m)),
+      why := if holds then "" else "http.Header does not hold every given value in order" }
+  | "percent" =>
+    let msg := unhex (str (field inp "msg"))
+    let out := unhex (str (field impl "out"))
+    let unesc := if isNull (field impl "unesc") then none else some (unhex (str (field impl "unesc")))
+    let m := percentEncode msg
+    let holds := out.all printable && percentDecode out == some msg
+    { agree := out == m && unesc == some msg, holds := holds, nontrivial := msg.any shouldEscape,
+      model := hex m, why := if holds then "" else "percent-encoding not printable or not invertible" }
+  | "codec" =>
+    let unk := str (field inp "unk")
+    let b (k : String) := bool (field impl k)
+    let rtAll := b "marshalOk" && b "rt" && b "stableRt" && b "appendOk"
+    let holds := rtAll && (unk == "" || (b "rejected" && !b "shorter"))
+    { agree := holds && (unk != "" || (!b "rejected" && !b "shorter")), holds := holds, nontrivial := true,
+      cls := str (field inp "codec") ++ (if unk == "" then "" else "+unknown"),
+      why := if holds then "" else
+        if !rtAll then "strict " ++ str (field inp "codec") ++ " codec does not decode what it encodes"
+        else "unknown field accepted" }
+  | _ => bad ("C18: unknown op " ++ op)
 
 end ConfModel.Driver.C18
